@@ -439,14 +439,16 @@ def run(ctx):
     out.samples = [{"label": m["label"], "spec": m["spec"], "dictionary": m["dict"]} for m in meta[len(meta) // 2: len(meta) // 2 + 3]]
     dist["outside_theorem_domain"] = len(bad["templ"] | bad["reconv"])
     dist["structure_raised"] = sum(1 for m in meta if m["error"])
+    ntie = 0
     for i, m in enumerate(meta):
         case = {"label": m["label"], "spec": m["spec"]}
         if i in bad["wf"]:
             out.failures.append(Failure(case=case, observed="class built by define()", expected="wf_clsb = true", kind="tie",
                                         note="a class built by define() violates the model's well-formedness (field order / positions / completeness)"))
         if i in bad["tie"]:
+            ntie += 1
             out.failures.append(Failure(case=case, observed={"dictionary": m["dict"], "structure_error": m["error"]},
-                                        expected=_model_says(ctx, cases[i], extra), kind="tie",
+                                        expected=_model_says(ctx, cases[i], extra) if ntie <= 3 else "(see the first cases)", kind="tie",
                                         note="model's dictionary / re-created class differs from unstructure()/structure()"))
         # Python's own comparison must agree with the Coq comparison of the encoded classes (checks the encoding)
         if m["py_same"] is not None and m["py_same"] != (i not in bad["spec"]):
